@@ -5,6 +5,7 @@ No top-level driver code.
 import re, json
 import drive
 from drive import ElectionProfile, Election, UsageError
+from droop.options import Options
 from droop.values import ArithmeticValuesError
 
 _CASE = re.compile(r'^"OPTCASE (.*)"\s*$', re.M)
@@ -39,16 +40,22 @@ def normd(d):
 
 def replay(case):
     "returns a list of differences (empty = the code does what the specification says)"
-    for k in ('cmd', 'file', 'default', 'force', 'effective'):
+    for k in ('cmd', 'file', 'default', 'force', 'effective', 'pre'):
         if isinstance(case[k], list):      # the empty function is printed as an empty JSON array
             case[k] = {}
     file_opts = ' '.join('%s=%s' % (k, v) for k, v in sorted(case['file'].items()))
     blt = BLT % ('[droop %s]' % file_opts if file_opts else '')
-    cmd = {k: typed(v) for k, v in case['cmd'].items()}
-    cmd['rule'] = case['rule']
+    cmd = {k: typed(v) for k, v in case['cmd'].items()}       # the rule name is part of the layer(s) the case puts it in
     diffs = []
     try:
-        E = Election(ElectionProfile(data=blt), dict(cmd))
+        if case['pre']:
+            # defaults registered on the Options object before the election sees it (Options.setopt is public)
+            opts = Options(dict(cmd))
+            for k, v in sorted(case['pre'].items()):
+                opts.setopt(k, default=typed(v))
+        else:
+            opts = dict(cmd)
+        E = Election(ElectionProfile(data=blt), opts)
         err = ''
     except UsageError:
         err = 'UsageError'
@@ -56,6 +63,8 @@ def replay(case):
         err = 'ArithmeticValuesError'
     except Exception as e:
         err = 'crash:' + type(e).__name__
+    if not err and norm(E.options.getopt('rule')) != case['rule']:
+        diffs.append(('rule chosen', case['rule'], norm(E.options.getopt('rule'))))
     if err != case['err']:
         return [('outcome', case['err'] or 'constructed', err or 'constructed')], blt, cmd
     if err:
